@@ -300,6 +300,23 @@ M('C02', 'store-reinitialised-for-every-row', QX,
 T('C02', 'twin-plain-dict-get-then-create', QX,
   "                store = aggregates[key]\n", "                store = aggregates.get(key)\n                if store is None:\n                    store = aggregates[key]\n")
 
+T('C02', 'twin-min-through-builtin', QE,
+  "            cur = store[self.handle]\n            if cur is None or value < cur:\n                store[self.handle] = value\n\n\n@aggregator([types.Any], name='max')",
+  "            cur = store[self.handle]\n            store[self.handle] = value if cur is None else min(cur, value)\n\n\n@aggregator([types.Any], name='max')")
+T('C02', 'twin-sum-decimal-through-local', QE,
+  "class SumDecimal(query_compile.EvalAggregator):\n    \"\"\"Calculate the sum of the numerical argument.\"\"\"\n    def update(self, store, context):\n        value = self.operands[0](context)\n        if value is not None:\n            store[self.handle] += value",
+  "class SumDecimal(query_compile.EvalAggregator):\n    \"\"\"Calculate the sum of the numerical argument.\"\"\"\n    def update(self, store, context):\n        value = self.operands[0](context)\n        if value is None:\n            return\n        total = store[self.handle]\n        total = total + value\n        store[self.handle] = total")
+T('C02', 'twin-first-guard-clause', QE,
+  "        if store[self.handle] is None:\n            value = self.operands[0](context)\n            store[self.handle] = value",
+  "        if store[self.handle] is not None:\n            return\n        store[self.handle] = self.operands[0](context)")
+T('C02', 'twin-sum-position-helper-method', QE,
+  "        value = self.operands[0](context)\n        if value is not None:\n            store[self.handle].add_position(value)",
+  "        value = self.operands[0](context)\n        if value is not None:\n            self._accumulator(store).add_position(value)\n\n    def _accumulator(self, store):\n        return store[self.handle]")
+M('C02', 'max-keeps-on-ties-only', QE,
+  "            if cur is None or value > cur:\n                store[self.handle] = value",
+  "            if cur is None or value >= cur and not value > cur:\n                store[self.handle] = value", ('R-AGGCLASS', 'max'))
+M('C02', 'finalize-keeps-store', QC,
+  "        self.value = store[self.handle]", "        self.value = store", ('R-AGGCLASS', 'count'))
 # ---------------------------------------------------------------------- C03
 R('C03', 'regress-D24-order-by-bound', '3d6b355-ORDER-BY-position-is-checked-against-the-number-of.diff',
   ('R-IDXBOUND', '_compile_order_by'))
